@@ -252,7 +252,7 @@ PROPS = {
         "design_ref": "DESIGN.md §7 C17", "assumptions": ["user callbacks do not re-enter the cache or the registries"],
     },
     "C20": {
-        "lean_modules": ["Cachelito.Props.C20", "Cachelito.Props.T10", "Cachelito.Props.T18"],
+        "lean_modules": ["Cachelito.Props.C20", "Cachelito.Props.C17s", "Cachelito.Props.T10", "Cachelito.Props.T18"],
         "streams": [macro_stream(nontrivial=["c20-suspended", "c20-dropped", "c20-resumed"], quick=1000,
                                  what="L2 with manual polling: real #[cache_async] functions whose bodies have 1-3 await points (a gate future) are polled until they suspend at a chosen await; while suspended a conditional invalidation of the same cache must complete on another thread (3 s watchdog), arbitrary other calls (same and other arguments) and invalidations run, then the call is resumed or dropped; outputs and the dump of every cache instance compared with Cachelito.aStep per operation"), static_stream(),
                     sched_stream(nontrivial=["concurrent-call"], quick=(6, 8, 60),
